@@ -657,12 +657,10 @@ def assigned_names(body, closures: dict) -> set:
                 target_names(e)
         elif isinstance(t, ast.Starred):
             target_names(t.value)
-        elif isinstance(t, (ast.Subscript, ast.Attribute)):
-            base = t
-            while isinstance(base, (ast.Subscript, ast.Attribute)):
-                base = base.value
-            if isinstance(base, ast.Name):
-                out.add(base.id)
+        elif isinstance(t, ast.Subscript):
+            # x[i] = v / del x[i] on a local pure list rebinding x; heap objects are handled by the heap
+            if isinstance(t.value, ast.Name):
+                out.add("~" + t.value.id)
 
     class Vis(ast.NodeVisitor):
         def visit_Assign(self, n):
@@ -700,7 +698,7 @@ def assigned_names(body, closures: dict) -> set:
         def visit_Call(self, n):
             f = n.func
             if isinstance(f, ast.Attribute) and f.attr in MUTATORS and isinstance(f.value, ast.Name):
-                out.add(f.value.id)
+                out.add("~" + f.value.id)  # mutation (matters for pure local lists only)
             if isinstance(f, ast.Name) and f.id in closures:
                 out.update(closures[f.id])
             self.generic_visit(n)
@@ -734,8 +732,8 @@ def closure_effects(fn_node) -> dict:
             for s in ast.walk(n):
                 if isinstance(s, ast.Call) and isinstance(s.func, ast.Attribute) and s.func.attr in MUTATORS \
                         and isinstance(s.func.value, ast.Name) and s.func.value.id not in params:
-                    muts.add(s.func.value.id)
-            eff[n.name] = (local_assigned & nl) | muts
+                    muts.add("~" + s.func.value.id)
+            eff[n.name] = ({x for x in local_assigned if not x.startswith("~")} & nl) | muts
     return eff
 
 
